@@ -13,5 +13,8 @@ RootC  == { <<1>>, <<2>>, <<3>>, <<3,1>>, <<10>>, <<11>> }
 CandFQ == { <<1,1>>, <<1,2>>, <<2,1>> }
 CandFT == { <<1,1>>, <<1,2>>, <<1,3>>, <<2,1>> }
 RootF  == { <<1>>, <<2>> }
+\* nested faulty-agent universe: an instance and the object above it, so that the agent can answer with a proper prefix
+\* of the requested OID (a smaller OID that "contains" it)
+CandFN == { <<1,1>>, <<1,1,1>>, <<2,1>> }
 RootListsOf(RC, k) == { r \in UNION { [1..i -> RC] : i \in 1..k } : PairwiseDisjoint(r) }
 ====
